@@ -639,8 +639,12 @@ class Formatter:
                 acc.append(json.get("nulls").upper())
                 acc.append("NULLS")
         else:
-            # set-op expression
-            acc = [self.dispatch(json["from"], precedence["order"])]
+            # set-op expression, or a parenthesised query with clauses of its own behind it
+            from_ = json["from"]
+            if isinstance(from_, dict) and not (is_set_op & from_.keys()):
+                acc = [f"({self.dispatch(from_, precedence['order'])})"]
+            else:
+                acc = [self.dispatch(from_, precedence["order"])]
 
         acc.extend(
             part
